@@ -30,10 +30,11 @@ type c03Version struct {
 }
 
 type c03Resume struct {
-	Layer   int   `json:"layer"`   // index into the version's layers
-	Parts   []int `json:"parts"`   // part sizes (tiling of the blob)
-	Done    []int `json:"done"`    // completed bytes per part
-	Corrupt bool  `json:"corrupt"` // completed region holds wrong bytes
+	Layer     int   `json:"layer"`   // index into the version's layers
+	Parts     []int `json:"parts"`   // part sizes (tiling of the blob)
+	Done      []int `json:"done"`    // completed bytes per part
+	Corrupt   bool  `json:"corrupt"` // completed region holds wrong bytes
+	EmptyPart int   `json:"empty_part_file,omitempty"` // 1-based: this part file is empty (process died while rewriting it)
 }
 
 type c03Attempt struct {
@@ -190,6 +191,9 @@ func c03Gen(r *kit.Rand, idx int, tiny []byte) c03Case {
 					rs.Done = append(rs.Done, kit.Pick(r, []int{0, ps, r.Intn(ps + 1)}))
 					rest -= ps
 				}
+				if r.Chance(1, 4) {
+					rs.EmptyPart = r.Range(1, np)
+				}
 				at.Resume = rs
 			}
 		}
@@ -237,7 +241,12 @@ func c03WriteResume(models string, l c03Layer, rs *c03Resume) {
 			data[off+done/2] ^= 0x55
 		}
 		pj, _ := json.Marshal(map[string]any{"N": i, "Offset": off, "Size": ps, "Completed": done})
-		os.WriteFile(fmt.Sprintf("%s-partial-%d", base, i), append(pj, '\n'), 0o644)
+		if rs.EmptyPart == i+1 {
+			pj = nil
+		} else {
+			pj = append(pj, '\n')
+		}
+		os.WriteFile(fmt.Sprintf("%s-partial-%d", base, i), pj, 0o644)
 		off += ps
 	}
 	os.WriteFile(base+"-partial", data, 0o644)
